@@ -22,9 +22,10 @@ CHECKS["C09"] = dict(level="exploration", ref="DESIGN.md §4 C09",
 
 CHECKS["C06"] = dict(level="exploration", ref="DESIGN.md §4 C06",
     text="Seeded search over thread schedules: 2-4 real client threads under the seeded baton scheduler (TSan build, switch points at API "
-         "boundaries, mutex lock/unlock, clock(), C allocations, file calls) each running create/load/run/read/destroy lifecycles from every engine "
-         "area on their own instances. Oracles: ThreadSanitizer silent, no deadlock, progress within a step budget, ids unique and never reused, dead "
-         "ids answer the documented values, every client's observations equal the same program run alone (isolation), and equal again in a second "
+         "boundaries, mutex lock/unlock, clock(), C allocations, file calls, after every sink call) each running create/load/run/read/destroy lifecycles from every engine "
+         "area on their own instances; one plan in four starts its threads in a fresh process (first-use set-up under concurrency), one in five is a storm "
+         "(all threads run the same input, with a rendezvous before every sink call), one lifecycle in eight starts with a failed load. Oracles: ThreadSanitizer silent, no deadlock, progress within a step budget, ids unique and never reused, dead "
+         "ids answer the documented values, no library mutex unlocked by a thread that does not hold it, every client's observations equal the same program run alone (isolation), and equal again in a second "
          "process with ASLR off, padded environment and shifted heap (bitwise repeatability).",
     note="Trusted: clang 14 ThreadSanitizer (instrumented code only), the scheduler's invisibility to TSan (relaxed atomics + futex in an uninstrumented TU), frozen per-client simulated clock. Sampling of schedules, not enumeration.",
     technique="deterministic simulation: seeded thread scheduler over real pthreads with TSan, solo-run reference execution, cross-process repeatability")
